@@ -12,9 +12,10 @@
  *             rdwr    written and closed before; reopened RDWR, one element read (last operation = read)
  *             attached an access record is still attached (Hclose must refuse)
  *             two     opened twice (reference count 2)
+ *             twoatt  opened twice, an access record attached through the id being closed (Hclose must refuse)
  *   function  HPseek <off> | HPseekcur 0 | HP_write <n> | HP_read <n> | HIextend_file 0 | HTPsync 0 | HIsync 0 |
  *             Hsync 0 | Hclose 0
- * output:     <lineno> fn sc=.. f=.. arg=.. mode=.. k=.. pre=<cur_off>,<last_op>,<end_off>,<cache>,<dirty_dd>,<dirty_end>,<refcount>,<attach>,<vmod>,<open>
+ * output:     <lineno> fn sc=.. f=.. arg=.. mode=.. k=.. pre=<cur_off>,<last_op>,<end_off>,<cache>,<dirty_dd>,<dirty_end>,<refcount>,<attach>,<vmod>,<open>,<writable>,<own_aid>
  *                      blocks=<off>:<dirty>:<ndds>/... status=<..> ret=<0|-1> trace=<one letter per device call, upper case = failed>
  */
 static void fn_body(const char *path, void *argp)
@@ -44,16 +45,18 @@ static void fn_body(const char *path, void *argp)
         if (strcmp(sc, "cache16")) Hputelement(fid, 100, 3, pat + 100, 10);
         if (!strcmp(sc, "cache")) { Hputelement(fid, 100, 4, pat, 70); Hputelement(fid, 100, 5, pat, 5); }
         if (!strcmp(sc, "attached")) aid = Hstartread(fid, 100, 1);
-        if (!strcmp(sc, "two")) fid2 = Hopen(path, DFACC_RDWR, 0);
+        if (!strcmp(sc, "two") || !strcmp(sc, "twoatt")) fid2 = Hopen(path, DFACC_RDWR, 0);
+        if (!strcmp(sc, "twoatt")) aid = Hstartread(fid, 100, 1);
     }
     if (fid == FAIL) { snprintf(RES->pre, sizeof RES->pre, "prep-failed"); return; }
     filerec_t *fr = HAatom_object(fid);
     if (!strcmp(fn, "HP_read")) HPseek(fr, 0);
     /* the abstract record the model starts from */
-    int n = snprintf(RES->pre, sizeof RES->pre, "pre=%ld,%d,%ld,%d,%d,%d,%d,%d,%d,%d blocks=", (long)fr->f_cur_off,
+    int own = fr->attach > 0 && HAsearch_atom(AIDGROUP, HIcompare_accrec_fileid, &fid) != NULL;
+    int n = snprintf(RES->pre, sizeof RES->pre, "pre=%ld,%d,%ld,%d,%d,%d,%d,%d,%d,%d,%d,%d blocks=", (long)fr->f_cur_off,
                      (int)fr->last_op, (long)fr->f_end_off, fr->cache ? 1 : 0, (fr->dirty & DDLIST_DIRTY) ? 1 : 0,
                      (fr->dirty & FILE_END_DIRTY) ? 1 : 0, (int)fr->refcount, (int)fr->attach,
-                     fr->version.modified ? 1 : 0, fr->file != NULL);
+                     fr->version.modified ? 1 : 0, fr->file != NULL, (fr->access & DFACC_WRITE) ? 1 : 0, own);
     for (ddblock_t *b = fr->ddhead; b != NULL && n < (int)sizeof RES->pre - 40; b = b->next)
         n += snprintf(RES->pre + n, sizeof RES->pre - n, "%s%ld:%d:%d", b == fr->ddhead ? "" : "/", (long)b->myoffset,
                       b->dirty ? 1 : 0, (int)b->ndds);
